@@ -337,9 +337,18 @@ func (a *api6) Classify(err error) string {
 
 func (a *api6) Datagram(id, xid int, kind string) []byte {
 	if kind == "undec" {
-		switch id % 5 {
+		switch id % 8 {
 		case 4:
 			return []byte{} // a zero-length datagram is legal UDP
+		case 5: // what begins like a relay message and is not one: cut inside its header, cut inside its options
+			good := a.Datagram(id, xid, "good")
+			relay := append(append([]byte{byte(12 + id/8%2), 0}, make([]byte, 32)...), 0, 9, byte(len(good)>>8), byte(len(good)))
+			relay = append(relay, good...)
+			return relay[:[]int{1, 2, 20, 33, 36, 40}[id/8%6]]
+		case 6: // one octet: any message type
+			return []byte{byte(id)}
+		case 7: // a relay message whose relayed message does not decode
+			return append(append([]byte{13, 0}, make([]byte, 32)...), 0, 9, 0, 3, 7, 1, 2)
 		case 0:
 			return []byte{7, byte(id)} // truncated header
 		case 1:
